@@ -1244,6 +1244,22 @@ pub fn c10(cfg: &Config, tr: &Trace, an: &Analysis, out: &mut Vec<Violation>) {
             out.push(v("C10", "escaped-panic", format!("panic escaped the run: {p}")));
         }
     }
+    // every payload the harness plants is a String, a &str or its custom type:
+    // a Failed event whose payload cannot be downcast to any of them lost it
+    for te in &tr.events {
+        let p = match te.ev.scenario().map(|x| x.2) {
+            Some(ScEv::Step(_, _, _, StepEv::Failed(p, _))) | Some(ScEv::Hook(_, HookEv::Failed(p, _))) => p,
+            _ => continue,
+        };
+        if p.contains("Unknown") {
+            out.push(v(
+                "C10",
+                "payload-lost",
+                format!("{}: the Failed event does not carry the panic payload", te.ev.short()),
+            ));
+            break;
+        }
+    }
     if tr.sentinel_during > 0 {
         out.push(v(
             "C10",
